@@ -17,7 +17,35 @@ ASSUMPTIONS = ["children in presentation order = iteration order of `sensor.chil
                "threaded flavour: the burst of a wake-up = the send jobs enqueued while its line was processed, in FIFO order "
                "(the monitor lets the pump drain at the end of the history)",
                "float(), awesomeversion are oracles fed with the library's real verdicts"]
-THEOREMS_DOC = {}
+THEOREMS_DOC = {
+    'C08_reachable_invariants': 'every reachable state satisfies Inv, QInv, CInv and keeps its configuration',
+    'C08_flush_strings_def': "strings of a flush = the node's hold queue oldest first ++ encode of the desired set commands", 'C08_desired_msgs_def': 'desired set commands = children in insertion order, REPORTED value types in insertion order, desired entry Some v: node;child;set;0;vt;str(v)',
+    'C08_desired_msgs_membership': 'membership in the desired set commands, both directions',
+    'C08_flush_calls': 'handle_smartsleep returns Ok; add_job_send is called on exactly queue ++ desired sets, in order, after the node was stored with its queue emptied',
+    'C08_flush_spec': 'handle_smartsleep of a known node returns Ok (flushed g nd)',
+    'C08_flushed_fields': 'flushed state: only that node and the log (asyncio) / job queue (threaded) changed, by exactly the flush strings in order',
+    'C08_woken_fields': 'node after the flush: queue empty, a slot for every child, desired entries NOT cleared, everything else unchanged',
+    'C08_flush_children_rel': 'prefix-emitting flush and exception-free flush agree (result / exception)',
+    'C08_flush_children_closed': 'under the invariant both return the closed list and no exception',
+    'C08_wake_logic': 'a wake-up announcement of a known node through the dispatcher never raises, returns no reply and yields the flushed state (2.0/2.1: plus heartbeat and alert)',
+    'C08_wake_outputs': 'what leaves the gateway in that call is exactly the withheld strings once each, oldest first, then the set commands (log sends / queued send jobs)',
+    'C08_set_child_value_sleeping': 'closed form of set_child_value on a sleeping node: ValueError / Invalid (gateway version) / ValueError (no slot) / Invalid (node version) / store Some v under int(value_type)',
+    'C08_store_desired_facts': 'after the call exactly the entry (child, int key) is Some v; nothing else of the node changes',
+    'C08_vt_key_normalised': "value types with equal int() make the whole call behave identically ('2' and 2 are the same key)", 'C08_vt_key_str_int': 'int(str(z)) = z for value types',
+    'C08_handle_set_known': 'an accepted report stores update_child_value of the node, alerts, replies only a pending reboot request',
+    'C08_update_child_value_facts': 'update_child_value sets entry (c, vt) to None, touches no other desired entry, records the reported value',
+    'C08_report_clears_desired': 'a step processing an accepted report of (n, c, vt) leaves desired (c, vt) = None and other desired entries unchanged',
+    'C08_cause_report': 'cause CReport n c vt = the step processes an accepted set message from (n, c, vt)',
+    'C08_cause_desire': "cause CDesire n c vt = the step is set_child_value n c vt' with int(vt') = vt", 'C08_desired_resent_until_reported': 'after an accepted call, in every state reached without a report of / new call for (n, c, vt): still pending, requests answered with it, flush succeeds and (if vt was reported) contains the set command',
+    'C08_unreported_not_sent': 'a desired value for a value type the node never reported is not part of any flush',
+    'C08_cleared_until_new_desire': 'once None, the entry stays None and no flush has a set command for (c, vt) until a new call for it',
+    'C08_flush_sets_are_desired': 'every set command of a flush is a pending desired value',
+    'C08_get_desired_value_closed': 'get_desired_value is total: pending desired value, else reported value, else None',
+    'C08_handle_req_known': "reply to a value request of a known child: set message with the request's ack/sub and that value; none if no value", 'C08_req_logic_sleeping': 'for a sleeping node the reply is appended to its hold queue and nothing is returned',
+    'C08_accepted_implies_deliverable': "after any accepted call and any later history the flush of every node returns Ok and no line raises, whatever the node's own protocol version", 'C08_refused_at_call_time': "a value invalid for the gateway's version raises Invalid at the call; the state is unchanged", 'C08_presentation_late_child': 'presenting a new child appends it and leaves the desired state untouched (no slot after the first wake-up)',
+    'C08_late_child_req': 'no slot: requests are answered from the reported values',
+    'C08_late_child_set_refused': 'no slot: set_child_value raises at call time (ValueError when the value is valid)',
+    'C08_late_child_gets_slot': 'the next wake-up creates the empty slot and keeps all existing slots'}
 SCOPE = ["S", "extra", "R"]
 
 
